@@ -56,6 +56,16 @@ pochta == <<208, 191, 208, 190, 209, 135, 209, 130, 208, 176>>
 UReserved == { JoinWith(<<l, r>>, DOT) : l \in {pochta, <<195, 169>>, pochta \o <<DOT>> \o <<120>>},
                                          r \in {S_test, S_example, S_invalid, S_localhost, S_onion, S_example \o <<DOT>> \o S_com,
                                                  S_example \o <<DOT>> \o S_org, S_example \o <<DOT>> \o S_net, S_example \o <<DOT>> \o <<99, 111>>, <<116, 101, 115, 116, 115>>} }
+\* the first and the last code point of every UTF-8 lead byte C2..F4 (first / last well-formed sequence with that lead), doubled, as
+\* a label in front of .com: whatever the converter makes of it, both spellings must be judged alike
+FirstOf(l) == CASE l \in 194..223 -> <<l, 128>>
+                [] l = 224 -> <<l, 160, 128>>   [] l \in 225..239 -> <<l, 128, 128>>
+                [] l = 240 -> <<l, 144, 128, 128>>   [] l \in 241..244 -> <<l, 128, 128, 128>>
+LastOf(l)  == CASE l \in 194..223 -> <<l, 191>>
+                [] l = 237 -> <<l, 159, 191>>   [] l \in (224..239) \ {237} -> <<l, 191, 191>>
+                [] l = 244 -> <<l, 143, 191, 191>>   [] l \in 240..243 -> <<l, 191, 191, 191>>
+LeadCover == UNION { { c \o c \o <<DOT>> \o com, <<120, DOT>> \o c \o <<97, DOT>> \o com, c \o <<97>> \o c \o <<DOT>> \o rf }
+                     : c \in UNION { {FirstOf(l), LastOf(l), FirstOf(l) \o <<>> } : l \in 194..244 } }
 Init == d = <<>> /\ k = 0
 Next == \/ Part = 1 /\ k < MaxLabels /\ \E l \in Labels : d' = (IF k = 0 THEN l ELSE d \o <<DOT>> \o l) /\ k' = k + 1
         \/ Part = 2 /\ k = 0 /\ \E i \in {j \in 1..NRows : TldU[j] # TldRows[j][1]} :
@@ -63,7 +73,7 @@ Next == \/ Part = 1 /\ k < MaxLabels /\ \E l \in Labels : d' = (IF k = 0 THEN l 
                                                     [] v = 2 -> TldU[i] \o <<DOT>> \o TldU[i]
                                                     [] v = 3 -> <<208, 191, DOT>> \o TldU[i]
         \/ Part = 3 /\ k = 0 /\ \E v \in Violations : d' = v /\ k' = 1
-        \/ Part = 2 /\ k = 0 /\ \E v \in LongU \cup OtherDots \cup UReserved : d' = v /\ k' = 1
+        \/ Part = 2 /\ k = 0 /\ \E v \in LongU \cup OtherDots \cup UReserved \cup LeadCover : d' = v /\ k' = 1
 MustReject == Part = 3
 Inv == k >= 1 => PrintT(ToJson(<<17, IF MustReject THEN 1 ELSE 0, Len(d)>> \o d))
 =============================================================================
